@@ -520,7 +520,7 @@ def build_native(q, wd, extra_defs):
         else:
             per.append((os.path.join(REPO, u), {}))
     for s in q.stubs:
-        if s in ("libc.c", "libc_loops.c", "malloc_pages.c"):
+        if s in ("libc.c", "libc_loops.c", "malloc_pages.c", "realloc_small.c"):
             continue
         per.append((os.path.join(VERIF, "include", "stubs", s), {}))
     for s in q.extra_sources:
